@@ -4,5 +4,6 @@ CONSTANTS
   MaxHeaders = 2
   Protos = {"HTTP/1.0", "HTTP/1.1", "HTTP/2.0", "HTTP/3.0"}
   LowerBeforeLookup = FALSE
+  GuardOnFirstValue = FALSE
 INVARIANTS DumpRedacts EmitCases
 CHECK_DEADLOCK FALSE
